@@ -311,8 +311,11 @@ def _run_free(item, res):
     res.state('free', item['harness'])
     res['ophashes'].append(hidden._digest(repr(('free', item['harness'], bad)).encode()))
     res['extra']['free_running_executions'] = item['runs']
+    # not the deciding step (sampling of real-thread timings is outside this family of technique and is not reproducible):
+    # mismatches are counted in the evidence and printed as a note, never as a violation
+    res['extra']['free_running_mismatches'] = bad
     if bad:
-        res.violation('schedule_purity', {'harness': item['harness'], 'free_running': True}, {'kind': 'result_differs_from_sequential', 'runs': item['runs'], 'bad': bad}, [])
+        res['notes'].append('free_running_mismatch:%s:%d_of_%d' % (item['harness'], bad, item['runs']))
     _snap().reset()
 
 
